@@ -251,6 +251,49 @@ func c14(c *Ctx) {
 		lits := stringLiteralsOf(gpk, "generateStructTypeAndMethods")
 		r.Check(ok && contains(lits, "flags") && contains(lits, "bitflags") && contains(lits, "FlagIndex"), "R14.F", "flagindex:position-of-flags", c.pos(gs.Pos()), "FlagIndex() returns the index of the parameter named flags of type bitflags")
 	}
+	// ---- R14.W: generated files replace what was there ---------------------------------------------------
+	r.Rule("R14.W", "every file the generator writes is written whole (WriteFile / Create / OpenFile with O_TRUNC): regenerating over previous output leaves no tail of the old file behind, so the output does not depend on what the directory held", 1)
+	{
+		nW := 0
+		var fns []*ssa.Function
+		for f := range c.P.AllFunctions() {
+			if f.Synthetic == "" && strings.HasPrefix(load.FuncPkgPath(f), load.GenPkg) {
+				fns = append(fns, f)
+			}
+		}
+		sort.Slice(fns, func(i, j int) bool { return fns[i].String() < fns[j].String() })
+		for _, f := range fns {
+			k := 0
+			for _, cs := range an.Calls(f) {
+				switch cs.Name {
+				case "io/ioutil.WriteFile", "os.WriteFile", "os.Create":
+					nW++
+					k++
+					r.Hold("R14.W", sprintf("write:%s#%d", an.ShortName(f), k), c.pos(cs.Pos()), cs.Name+" truncates")
+				case "os.OpenFile":
+					flags, isConst := an.ConstInt(cs.Common.Args[1])
+					const wr = 0x1 | 0x2 // O_WRONLY | O_RDWR
+					if isConst && flags&wr == 0 {
+						continue // opened for reading
+					}
+					nW++
+					k++
+					key := sprintf("write:%s#%d", an.ShortName(f), k)
+					switch {
+					case !isConst:
+						r.Undecide("R14.W", key, c.pos(cs.Pos()), "os.OpenFile with non-constant flags")
+					case flags&0x200 != 0 || flags&0x400 != 0:
+						r.Hold("R14.W", key, c.pos(cs.Pos()), "os.OpenFile with O_TRUNC")
+					default:
+						r.Violate("R14.W", key, c.pos(cs.Pos()), sprintf("os.OpenFile(name, %#x, …) opens the output for writing without O_TRUNC: a shorter regenerated file keeps the tail of the previous one (not valid Go, and different bytes for the same schema)", flags))
+					}
+				}
+			}
+		}
+		if nW == 0 {
+			r.Undecide("R14.W", "write", "", "no file write found in the generator package")
+		}
+	}
 	// ---- R14.G -----------------------------------------------------------------------------------
 	r.Rule("R14.G", "positional-argument grouping: two neighbouring parameters share one type only if every parameter field that determines the emitted Go type (Type, IsVector) is equal", 1)
 	if ga := c.fn("R14.G", load.GenPkg, "*Generator", "generateArgumentsForMethod"); ga != nil {
